@@ -91,12 +91,14 @@ class Model:
         qr = QuadratureRule.create_quadrature_rule_on_triangle(degree=2 * m.parentElement.degree)
         fs = FunctionSpace.construct_function_space(m, qr)
         props = {"elastic modulus": cfg["E"], "poisson ratio": cfg["nu"], "density": cfg["rho"]}
-        self.linear = cfg["mat"] == "linear"
-        mat = (LinearElastic if self.linear else Neohookean).create_material_model_functions(props)
+        # the volume-averaged-J projection makes the strain energy non-quadratic whatever the material
+        self.linear = cfg["mat"] == "linear" and cfg.get("ppd") is None
+        mat = (LinearElastic if cfg["mat"] == "linear" else Neohookean).create_material_model_functions(props)
         self.beta = float(fr(cfg["par"][0]))
         self.gamma = float(fr(cfg["par"][1]))
         self.dyn = dyn = Mechanics.create_dynamics_functions(
-            fs, "plane strain", mat, Mechanics.NewmarkParameters(gamma=self.gamma, beta=self.beta))
+            fs, "plane strain", mat, Mechanics.NewmarkParameters(gamma=self.gamma, beta=self.beta),
+            pressureProjectionDegree=cfg.get("ppd"))
         self.iv = iv = dyn.compute_initial_state()
         ebcs = [FunctionSpace.EssentialBC(nodeSet=s, component=comp) for s, comp in BCS[cfg["bc"]]]
         self.dm = dm = FunctionSpace.DofManager(fs, 2, ebcs)
@@ -592,8 +594,13 @@ def main(tier, replay=None):
         neo = [(models[1], PARS["trap"]), (models[2], PARS["damped"])]
         if tier == "thorough":
             neo += [(models[0], PARS["half"]), (models[3], PARS["hht"]), (models[4], PARS["trap"]), (models[5], PARS["third"])]
+        # option lattice of create_dynamics_functions: pressure projection (degree 0 and 1 on quadratic elements with a
+        # 6-point rule, where the projection is not the identity), neo-Hookean and linear-elastic base material
+        neo += [(dict(models[1], ppd=0), PARS["trap"]), (dict(models[3], ppd=1), PARS["damped"]),
+                (dict(models[1], ppd=1, base="linear"), PARS["half"])]
         for m, par in neo:
-            cfg = dict(m, mat="neo", par=par)
+            cfg = dict(m, mat=m.get("base", "neo"), par=par)
+            cfg.pop("base", None)
             for r in range(6 * reps):
                 plan.append(dict(kind="field", cfg=cfg, ftype="general", nsteps=6, seed=rng.randrange(1 << 30)))
             if FREE_DIRS[m["bc"]]:
